@@ -37,6 +37,7 @@ type CartSpec struct {
 	File     string `json:"file,omitempty"`     // kind file: path of a ROM relative to /repo/gameboy/testdata
 	Missing  bool   `json:"missing,omitempty"`  // the file does not exist
 	FillSeed uint64 `json:"fill_seed,omitempty"`
+	Handler  string `json:"handler,omitempty"` // hex (at most 8 bytes) placed at every interrupt vector instead of NOP;RETI
 }
 
 // Scenario is one simulated run. It is plain data, is what the seed expands to, and is the
